@@ -17,6 +17,9 @@
 // A quarter of the programs also hold `h0++` on a histogram under its own tag:
 // the instruction panics inside the VM and is recovered as a runtime error that
 // ends its line, and the line after it must run as in a fresh VM.
+// A third of the programs hold `$x =~ /re/ { }` / `!~` statements whose operand
+// is a capture that can be empty, over regexps that do and do not match the
+// empty string; the empty line is in the line pools.
 // Correspondence: the whole run (removals included), and a sample of the fresh
 // runs, against Lang/TimeReg.v (run_htrace_new) with the time library tabulated.
 package main
@@ -518,6 +521,9 @@ func main() {
 				if in.D && !s.Neg && k == 7 {
 					s.Acts = append(s.Acts, tmrun.Action{K: "conv", M: "n0"})
 				}
+				if in.S && !s.Neg && k == 10 {
+					s.Acts = append(s.Acts, tmrun.Action{K: "strp", Layout: "2006"}, tmrun.Action{K: "gts", M: "g0"})
+				}
 				st = append(st, s)
 			}
 			mk := func(op string) string {
@@ -530,7 +536,7 @@ func main() {
 				return "S u=" + op + ";"
 			}
 			add(runOne(tmrun.Prog{Stmts: st}, 0, false,
-				[]string{mk(first), mk(""), mk("guest"), mk(""), mk("42"), mk("42"), mk(""), mk("aaa"), mk("x"), mk("")}, noGc, 2))
+				[]string{mk(first), mk(""), mk("guest"), mk(""), mk("42"), mk("42"), mk(""), mk("aaa"), mk("2020"), mk("x"), mk("")}, noGc, 2))
 		}
 	}
 
